@@ -47,6 +47,15 @@ Logged(p, wc, ri) ==
      lastKnown |-> p.lastKnown, gkH |-> p.gkH, wH |-> p.wH, cH |-> p.cH, wCache |-> wc, rIndex |-> ri,
      reorged |-> PairsOf(p.reorged), memo |-> MemoRows(p.memo), reachable |-> p.reachable]
 
+\* While a tower thread may be blocked inside the code under test the memory snapshot hooks cannot be used (they take the
+\* same locks): such events are marked frozen and carry the durable state and the reachability flag only; the volatile
+\* components are then the ones the specification computes (x).
+LogOr(e, x, wc, ri) ==
+    IF e.frozen
+    THEN [x EXCEPT !.users = UsersOf(e.post.users), !.appts = ApptsOf(e.post.appts), !.trackers = TrackersOf(e.post.trackers),
+                   !.lastKnown = e.post.lastKnown, !.reachable = e.post.reachable, !.wCache = wc, !.rIndex = ri]
+    ELSE Logged(e.post, wc, ri)
+
 \* node verdicts of this action: rpc = <<m, tx, v>>*, m \in {"send","get"}, v \in {"ok","rej","res","err"} / {"mem","no","err"}
 OrcOf(rpc) ==
     [tx \in 0..MAXTX |->
@@ -54,6 +63,9 @@ OrcOf(rpc) ==
         THEN rpc[CHOOSE i \in 1..Len(rpc) : rpc[i][1] = "send" /\ rpc[i][2] = tx /\ rpc[i][3] # "err"][3]
         ELSE IF \E i \in 1..Len(rpc) : rpc[i][1] = "get" /\ rpc[i][2] = tx /\ rpc[i][3] = "mem" THEN "mem"
         ELSE "none"]
+\* a node RPC that was answered means the Carrier found (or made, by its own probe) the flag up
+Answered(rpc) == \E i \in 1..Len(rpc) : rpc[i][3] # "err"
+WithFlag(x, rpc) == IF Answered(rpc) THEN [x EXCEPT !.st.reachable = TRUE] ELSE x
 SendsOf(rpc) == {rpc[i][2] : i \in {j \in 1..Len(rpc) : rpc[j][1] = "send" /\ rpc[j][3] # "err"}}
 
 Ev == Rec[l]
@@ -108,7 +120,7 @@ Conf(exp, log, sends, pU, pA, pT, pSmiss, pSextra) ==
     \cup (IF exp.st.lastKnown # log.lastKnown THEN T("C03", "conf.last_known") ELSE {})
 
 \* logged look-up observations against the model caches (C19 inside the tower)
-CacheTags(p, wc, ri) ==
+CacheTags(p, wc, ri) == IF Ev.frozen THEN {} ELSE
     (IF {r[1] : r \in ToSetOf(p.cache)} \cap (1..MAXTX) # IdxKeys(wc) \cap (1..MAXTX) THEN T("C19", "tower.cache") ELSE {})
     \cup (IF {<<r[1], r[2], r[3]>> : r \in ToSetOf(p.index)} #
              {<<k, IdxGet(ri, k), IdxHeight(ri, IdxGet(ri, k))>> : k \in IdxKeys(ri)} THEN T("C19", "tower.index") ELSE {})
@@ -174,7 +186,7 @@ StepBoot ==
 StepRegister ==
     /\ Ev.act = "Register"
     /\ LET exp == RegisterF(st, Ev.u)
-           log == Logged(Ev.post, st.wCache, st.rIndex)
+           log == LogOr(Ev, exp.st, st.wCache, st.rIndex)
            E == [act |-> "Register", who |-> Ev.u, reply |-> Ev.reply, sends |-> {}, orc |-> OrcOf(<<>>)]
            durable == HasUser(log.users, Ev.u) /\ (~HasUser(st.users, Ev.u) \/ UserOf(log.users, Ev.u) # UserOf(st.users, Ev.u))
            gr2 == IF (Ev.abort = "" /\ Ev.reply.code = "ok") \/ (Ev.abort = "crash" /\ durable)
@@ -205,8 +217,8 @@ StepAdd ==
     /\ LET a == [l |-> Ev.l, blob |-> [key |-> Ev.key, pay |-> Ev.pay, size |-> Ev.size], tsd |-> Ev.tsd, ver |-> Ev.ver]
            orc == OrcOf(Ev.rpc)
            sends == SendsOf(Ev.rpc)
-           exp == AddAppointmentF(st, Ev.who, a, orc)
-           log == Logged(Ev.post, st.wCache, st.rIndex)
+           exp == WithFlag(AddAppointmentF(st, Ev.who, a, orc), Ev.rpc)
+           log == LogOr(Ev, exp.st, st.wCache, st.rIndex)
            E == [act |-> "Add", who |-> Ev.who, a |-> a, reply |-> Ev.reply, sends |-> sends, orc |-> orc]
            g2 == [g EXCEPT !.granted = Resync(@, log),
                            !.nodeHas = @ \cup {tx \in 0..MAXTX : orc[tx] \in {"ok", "mem", "res"}},
@@ -233,7 +245,7 @@ StepAdd ==
 StepGet ==
     /\ Ev.act = "Get"
     /\ LET exp == GetAppointmentF(st, Ev.who, Ev.l)
-           log == Logged(Ev.post, st.wCache, st.rIndex)
+           log == LogOr(Ev, st, st.wCache, st.rIndex)
            E == [act |-> "Get", who |-> Ev.who, l |-> Ev.l, reply |-> Ev.reply, sends |-> {}, orc |-> OrcOf(<<>>)]
            same == IF exp.code # Ev.reply.code THEN FALSE
                    ELSE IF exp.code # "ok" THEN (exp.code # "expired" \/ exp.expiry = Ev.reply.expiry)
@@ -253,7 +265,7 @@ StepGet ==
 StepSub ==
     /\ Ev.act = "Sub"
     /\ LET exp == GetSubscriptionInfoF(st, Ev.who)
-           log == Logged(Ev.post, st.wCache, st.rIndex)
+           log == LogOr(Ev, st, st.wCache, st.rIndex)
            rep == IF Ev.reply.code = "ok" THEN [Ev.reply EXCEPT !.locators = ToSetOf(@)] ELSE Ev.reply
            E == [act |-> "Sub", who |-> Ev.who, reply |-> rep, sends |-> {}, orc |-> OrcOf(<<>>)]
            same == IF exp.code # rep.code THEN FALSE
@@ -274,7 +286,7 @@ StepGkConnect ==
     /\ Ev.act = "GkConnect"
     /\ LET blk == BlkOf(Ev.blk)
            exp == Out(GkConnectF(st, blk.h), Reply("ok"), {})
-           log == Logged(Ev.post, st.wCache, st.rIndex)
+           log == LogOr(Ev, exp.st, st.wCache, st.rIndex)
            E == [act |-> "GkConnect", blk |-> blk]
        IN /\ st' = log
           /\ g' = [g EXCEPT !.granted = {x \in @ : HasUser(log.users, x[1])}]
@@ -290,8 +302,8 @@ StepWConnect ==
     /\ LET blk == BlkOf(Ev.blk)
            orc == OrcOf(Ev.rpc)
            sends == SendsOf(Ev.rpc)
-           exp == WConnectF(st, blk, orc)
-           log == Logged(Ev.post, exp.st.wCache, st.rIndex)
+           exp == WithFlag(WConnectF(st, blk, orc), Ev.rpc)
+           log == LogOr(Ev, exp.st, exp.st.wCache, st.rIndex)
            E == [act |-> "WConnect", blk |-> blk, reply |-> Reply("ok"), sends |-> sends, orc |-> orc]
            g2 == [g EXCEPT !.seen = @ \cup blk.keys,
                            !.nodeHas = @ \cup blk.keys \cup {tx \in 0..MAXTX : orc[tx] \in {"ok", "mem", "res"}},
@@ -314,8 +326,8 @@ StepRConnect ==
     /\ LET blk == BlkOf(Ev.blk)
            orc == OrcOf(Ev.rpc)
            sends == SendsOf(Ev.rpc)
-           exp == RConnectF(st, blk, orc)
-           log == Logged(Ev.post, st.wCache, exp.st.rIndex)
+           exp == WithFlag(RConnectF(st, blk, orc), Ev.rpc)
+           log == LogOr(Ev, exp.st, st.wCache, exp.st.rIndex)
            E == [act |-> "RConnect", blk |-> blk, reply |-> Reply("ok"), sends |-> sends, orc |-> orc]
            g2 == [g EXCEPT !.seen = @ \cup blk.keys,
                            !.nodeHas = @ \cup blk.keys \cup {tx \in 0..MAXTX : orc[tx] \in {"ok", "mem", "res"}},
@@ -340,7 +352,7 @@ StepDisc ==
                    [] Ev.act = "WDisc" -> WDisconnectF(st, blk)
                    [] OTHER -> RDisconnectF(st, blk)
            exp == Out(es, Reply("ok"), {})
-           log == Logged(Ev.post, es.wCache, es.rIndex)
+           log == LogOr(Ev, es, es.wCache, es.rIndex)
            E == [act |-> Ev.act, blk |-> blk]
        IN /\ st' = log
           /\ g' = IF Ev.act = "GkDisc" THEN [g EXCEPT !.chain = {b \in @ : b.h < blk.h}] ELSE g
@@ -362,7 +374,7 @@ StepPollEnd ==
                    [] Ev.res = "transient" -> PollTransientF(st)
                    [] OTHER -> st
            exp == Out(es, Reply("ok"), {})
-           log == Logged(Ev.post, st.wCache, st.rIndex)
+           log == LogOr(Ev, es, st.wCache, st.rIndex)
        IN /\ st' = log
           /\ g' = g
           /\ tags' = tags
@@ -392,6 +404,18 @@ StepRefFinal ==
             \cup (IF m.lastKnownH # r.lastKnownH THEN T("C03", "catchup.last_known") ELSE {})
     /\ UNCHANGED <<st, g, alive>>
 
+\* C12: the reachability flag changed under an in-flight call (the Carrier noticed the outage)
+StepFlag ==
+    /\ Ev.act = "Flag"
+    /\ st' = [st EXCEPT !.reachable = Ev.reachable]
+    /\ UNCHANGED <<g, tags, alive>>
+
+\* C12: a tower thread is still blocked although the node is reachable again and a poll was attempted
+StepHung ==
+    /\ Ev.act = "Hung"
+    /\ tags' = tags \cup T("C12", "hung:" \o Ev.op)
+    /\ UNCHANGED <<st, g, alive>>
+
 StepInit ==
     /\ Ev.act = "Init"
     /\ st' = [dead |-> TRUE]
@@ -408,7 +432,7 @@ Next ==
     /\ l <= Len(Rec)
     /\ l' = l + 1
     /\ \/ StepInit \/ StepBoot \/ StepRegister \/ StepAdd \/ StepGet \/ StepSub
-       \/ StepGkConnect \/ StepWConnect \/ StepRConnect \/ StepDisc \/ StepPollEnd \/ StepNote \/ StepRefFinal \/ StepEnd
+       \/ StepGkConnect \/ StepWConnect \/ StepRConnect \/ StepDisc \/ StepPollEnd \/ StepNote \/ StepRefFinal \/ StepFlag \/ StepHung \/ StepEnd
 
 Spec == Init /\ [][Next]_vars
 =============================================================================
